@@ -669,6 +669,21 @@ class Interp:
     def ev_Call(self, n, fr):
         # logging / warnings / print: arguments are evaluated (arity & name errors surface), effect ignored
         f = self.ev(n.func, fr)
+        is_log = isinstance(getattr(f, "__self__", None), logging.Logger)
+        if not is_log and isinstance(n.func, ast.Attribute) and isinstance(n.func.value, ast.Name):
+            try:
+                is_log = isinstance(self.ev(n.func.value, fr), logging.Logger)       # logger.more(...): a /repo helper hung on the logger object
+            except Signal_types:
+                is_log = False
+        if is_log:
+            # a logging call: its arguments are evaluated for arity / name errors only; anything in them that the interpreter cannot
+            # execute (string formatting over symbolic values) cannot influence the program
+            try:
+                for a in n.args:
+                    self.ev(a.value if isinstance(a, ast.Starred) else a, fr)
+            except Unsupported:
+                pass
+            return None
         args, kw = [], {}
         for a in n.args:
             if isinstance(a, ast.Starred):
